@@ -243,6 +243,8 @@ def check_chain(case, ctx):
     else:
         ctx.check(all(np.array_equal(a, b) for a, b in zip(as_tuple(ow), weights)), "Chain.filter did not return the weights it was given")
     at_data_f = as_tuple(chain_f.predict((e, n)))
+    if not isinstance(d_arg, tuple):
+        ctx.check(not isinstance(ores, (tuple, list)), "Chain.filter was given one data array and returned its residuals as a %s", type(ores).__name__)
     for k, r in enumerate(as_tuple(ores)):
         r = np.asarray(r)
         ctx.check(r.shape == data[k].shape, "Chain.filter residual has shape %s, data has %s", r.shape, data[k].shape)
@@ -366,6 +368,8 @@ def check_filter(case, ctx):
     ref = build.make_estimator(case["spec"])
     quiet(ref.fit, coords, pack(data), w_arg)
     pred = as_tuple(ref.predict(coords))
+    if len(data) == 1:
+        ctx.check(not isinstance(res, (tuple, list)), "filter was given one data array and returned its residuals as a %s (the data's shape is %s)", type(res).__name__, data[0].shape)
     res = as_tuple(res)
     ctx.check(len(res) == len(data), "residuals have %d components for %d-component data", len(res), len(data))
     for k in range(len(data)):
